@@ -3,7 +3,7 @@ symbolic arguments, enclosing loops and guards (used by the construction-shape r
 import re
 
 from .facts import callee, strip, walk, plain_local
-from .symx import SymEval, Unsupported, Poly, app, var, num, vkey
+from .symx import single_atom, atom_fn, atom_args, SymEval, Unsupported, Poly, app, var, num, vkey
 
 
 class Event:
@@ -20,6 +20,68 @@ class Event:
         return "Event(%s %r loops=%r guards=%r @%s)" % (self.callee, self.args, self.loops, self.guards, self.site)
 
 
+class GuardList(list):
+    """path condition; `not(c)` is stored as c with the opposite polarity so that `if !c {..}` and `if c {} else {..}` read alike"""
+
+    def append(self, g):
+        c, pol = g
+        while isinstance(c, Poly):
+            a = single_atom(c)
+            if a is not None and atom_fn(a) == "not" and isinstance(atom_args(a)[0], Poly):
+                c, pol = atom_args(a)[0], not pol
+            else:
+                break
+        super().append((c, pol))
+
+
+def quantifier(F, g, pol, argname="q", tracer=None):
+    """a path condition any(iter, pred) / all(iter, pred) -> ('forall'|'exists', iterator description, canonical predicate
+    value, predicate polarity): the condition says that for all / some q of the iterator, predicate(q) has that polarity."""
+    from .symx import canon_cond
+    c, pol = canon_cond(g, pol)
+    a = single_atom(c) if isinstance(c, Poly) else None
+    if a is None or atom_fn(a) not in ("std::iter::Iterator::any", "std::iter::Iterator::all"):
+        return None
+    args = atom_args(a)
+    if len(args) != 2 or not (isinstance(args[0], tuple) and args[0] and args[0][0] == "iterdesc"):
+        return None
+    clo = args[1]
+    node = F.closures.get(clo[1]) if isinstance(clo, tuple) and clo and clo[0] == "closure" and isinstance(clo[1], str) else None
+    if node is None:
+        return None
+    try:
+        cenv = dict(getattr(tracer, "closure_envs", {}).get(clo[1], {})) if tracer is not None else {}
+        pv = SymEval(F, mode="int").apply(("closure", node, cenv), [var(argname)])
+    except Unsupported:
+        return None
+    is_any = atom_fn(a).endswith("any")
+    # any & true: exists pred ; any & false: forall !pred ; all & true: forall pred ; all & false: exists !pred
+    quant = "exists" if (is_any == pol) else "forall"
+    ppol = True if (is_any and pol) or (not is_any and pol) else False
+    pc, ppol = canon_cond(pv, ppol)
+    return quant, args[0][1], pc, ppol
+
+
+def diverges(n):
+    """the expression always leaves the enclosing block (return / break / continue / panic at its end)"""
+    n = strip(n)
+    k = n.get("k")
+    if k in ("ret", "break", "continue"):
+        return True
+    if k == "block":
+        last = n.get("e")
+        if last is None and n.get("stmts"):
+            st = n["stmts"][-1]
+            last = st.get("e") if st.get("k") == "semi" else None
+        return last is not None and diverges(last)
+    if k == "if" and "e" in n:
+        return diverges(n["t"]) and diverges(n["e"])
+    if k == "try":
+        return False
+    from .symx import _panics
+    return _panics(n)
+
+
 class Tracer(SymEval):
     """SymEval that also walks loops / branches and records calls matching `interesting`.
 
@@ -34,8 +96,9 @@ class Tracer(SymEval):
         self.events = []
         self.others = []
         self.loops = []
-        self.guards = []
+        self.guards = GuardList()
         self.assigned = {}
+        self.carried_init = {}      # loop-carried local -> its value on loop entry
 
     # -- iterator descriptions ----------------------------------------------
     def iter_desc(self, it, env):
@@ -116,6 +179,8 @@ class Tracer(SymEval):
             if a.get("k") in ("assign", "assignop"):
                 nm = plain_local(a["l"])
                 if nm is not None:
+                    if nm in env:
+                        self.carried_init[nm] = env[nm]
                     e2[nm] = var(nm.split("#")[0] + "@loop")
         self.loops.append(loop)
         try:
@@ -172,11 +237,31 @@ class Tracer(SymEval):
         return app("ite", c, t, e)
 
     def e_block(self, n, env):
+        pushed = [0]
+        try:
+            return self._e_block_guarded(n, env, pushed)
+        finally:
+            for _ in range(pushed[0]):
+                self.guards.pop()
+
+    def _e_block_guarded(self, n, env, pushed):
         env = dict(env) if n.get("stmts") else env
         for s in n.get("stmts", []):
             if s["k"] == "let":
                 if "init" in s:
-                    self.bind(s["pat"], self.eval(s["init"], env), env)
+                    v = self.eval(s["init"], env)
+                    if "els" in s:
+                        # let PAT = v else { diverge }: the else block runs when PAT does not match; afterwards it matched
+                        from .tables import pat_key
+                        m = app("matches", v, repr(pat_key(s["pat"])))
+                        self.guards.append((m, False))
+                        try:
+                            self.eval(s["els"], dict(env))
+                        finally:
+                            self.guards.pop()
+                        self.guards.append((m, True))
+                        pushed[0] += 1
+                    self.bind(s["pat"], v, env)
                 else:
                     for b in walk(s["pat"]):
                         if b.get("k") == "bind":
@@ -202,6 +287,29 @@ class Tracer(SymEval):
                 if _panics(e):
                     self.events.append(Event("<panic>", [], self.loops, self.guards, e.get("sp"), e))
                     return ("panic",)
+                # guard clause: `if c { ..; return/break/continue }` (or the mirror image with the else branch leaving):
+                # the rest of the block runs under the opposite condition
+                ee = strip(e)
+                if ee.get("k") == "if" and ee["c"].get("k") != "letx":
+                    t_div = diverges(ee["t"])
+                    e_div = "e" in ee and diverges(ee["e"])
+                    if t_div != e_div and (t_div or "e" in ee):
+                        c = self.eval(ee["c"], env)
+                        if not (isinstance(c, tuple) and c and c[0] == "bool"):
+                            self.guards.append((c, True))
+                            try:
+                                self.eval(ee["t"], dict(env))
+                            finally:
+                                self.guards.pop()
+                            if "e" in ee:
+                                self.guards.append((c, False))
+                                try:
+                                    self.eval(ee["e"], dict(env))
+                                finally:
+                                    self.guards.pop()
+                            self.guards.append((c, not t_div))
+                            pushed[0] += 1
+                            continue
                 self.eval(e, env)
         if n.get("e") is not None:
             return self.eval(n["e"], env)
@@ -290,6 +398,17 @@ class Tracer(SymEval):
                     "skip", "step_by", "take")
 
     def e_mcall(self, n, env):
+        if n["m"] == "next" and not n["args"] and (n.get("def") or "").endswith("Iterator::next"):
+            # it.next() on a local iterator consumes one element: the local now denotes the rest of the sequence
+            nm = plain_local(n["recv"])
+            cur = env.get(nm) if nm is not None else None
+            if isinstance(cur, tuple) and cur and cur[0] == "iterdesc":
+                d = cur[1]
+                if d[0] == "skip" and isinstance(d[2], Poly):
+                    env[nm] = ("iterdesc", ("skip", d[1], d[2] + num(1)))
+                else:
+                    env[nm] = ("iterdesc", ("skip", d, num(1)))
+                return app("std::iter::Iterator::next", cur)
         if n["m"] in self.ITER_METHODS and not (n.get("def") or "").startswith(("sparse::", "codes::")) and \
                 ("Iter" in n.get("ty", "") or "iter::" in n.get("ty", "")):
             d = ("iterdesc", self.iter_desc(n, env))
